@@ -30,10 +30,13 @@ def adjudicate(pending):
         rev = list(reversed(ring))
         f_fwd = f64_sign_as_library(ring)
         f_rev = f64_sign_as_library(rev)
-        rev_exact = 'inner' if exact_role == 'outer' else 'outer'
-        # the f64 test lost the sign if, on the ring as stored or on its reversal (the state
-        # the constructor tested), it disagrees with the exact orientation
-        sign_lost = (f_fwd != exact_role) or (f_rev != rev_exact)
+        # The known finding is narrow: the role read back is the one the library's documented
+        # orientation test (f64 shoelace sum, left to right, `area < 0` -> inner) yields on the
+        # ring as stored, and that differs from the declared role because the f64 sum loses the
+        # sign somewhere (the constructor could not orient the ring; the reader repeats the
+        # same test). A role that the documented test on the stored ring does NOT yield is not
+        # explained by that finding, whatever the floats look like.
+        sign_lost = (p['read'] == f_fwd)
         sig = 'role-flip:f64-sign-lost' if sign_lost else 'role-flip:other'
         v = violations.setdefault(sig, {'sig': sig, 'case': p['case'], 'count': 0,
                                         'detail': dict(p, exact_orientation=exact_role, f64_test_on_stored_ring=f_fwd,
